@@ -40,7 +40,7 @@ type compo struct {
 }
 
 func buildBase(t *rapid.T, label string, allowMerge bool, c *compo) (mocrelay.Handler, any) {
-	kinds := []string{"default", "cache", "router", "sqlite"}
+	kinds := []string{"default", "cache", "router", "router", "sqlite"}
 	if allowMerge {
 		kinds = append(kinds, "merge", "merge")
 	}
@@ -89,7 +89,7 @@ func buildCompo(t *rapid.T) *compo {
 	h, d := buildBase(t, "", true, c)
 	c.depth++
 	var mws []string
-	n := rapid.IntRange(0, 4).Draw(t, "nmw")
+	n := rapid.SampledFrom([]int{0, 0, 1, 2, 3, 4}).Draw(t, "nmw")
 	authors := gen.Pubkeys(2)
 	for i := 0; i < n; i++ {
 		lab := fmt.Sprintf("mw%d.", i)
@@ -212,17 +212,30 @@ func TestC13Termination(t *testing.T) {
 				msgs = append(msgs, &mocrelay.ClientEventMsg{Event: e})
 				briefs = append(briefs, map[string]any{"EVENT": gen.Short(e.ID), "kind": e.Kind})
 			case 4, 5, 6:
-				id := rapid.SampledFrom([]string{"a", "b", "c", "dd"}).Draw(t, lab+"sub")
-				msgs = append(msgs, &mocrelay.ClientReqMsg{SubscriptionID: id, ReqFilters: []*mocrelay.ReqFilter{{}}})
-				briefs = append(briefs, map[string]any{"REQ": id})
+				id := rapid.SampledFrom([]string{"a", "b", "c", "dd", "eeeee"}).Draw(t, lab+"sub")
+				nf := rapid.SampledFrom([]int{1, 1, 1, 2, 4}).Draw(t, lab+"nf")
+				var fs []*mocrelay.ReqFilter
+				for j := 0; j < nf; j++ {
+					f := &mocrelay.ReqFilter{}
+					if rapid.IntRange(0, 3).Draw(t, fmt.Sprintf("%sf%dlim?", lab, j)) == 0 {
+						f.Limit = gen.Ptr(int64(rapid.SampledFrom([]int{0, 1, 60, 1000}).Draw(t, fmt.Sprintf("%sf%dlim", lab, j))))
+					}
+					fs = append(fs, f)
+				}
+				msgs = append(msgs, &mocrelay.ClientReqMsg{SubscriptionID: id, ReqFilters: fs})
+				briefs = append(briefs, map[string]any{"REQ": id, "filters": nf})
 			case 7:
 				id := rapid.SampledFrom([]string{"a", "b", "c", "dd"}).Draw(t, lab+"sub")
 				msgs = append(msgs, &mocrelay.ClientCloseMsg{SubscriptionID: id})
 				briefs = append(briefs, map[string]any{"CLOSE": id})
 			default:
-				id := rapid.SampledFrom([]string{"a", "b"}).Draw(t, lab+"sub")
-				msgs = append(msgs, &mocrelay.ClientCountMsg{SubscriptionID: id, ReqFilters: []*mocrelay.ReqFilter{{}}})
-				briefs = append(briefs, map[string]any{"COUNT": id})
+				id := rapid.SampledFrom([]string{"a", "b", "eeeee"}).Draw(t, lab+"sub")
+				fs := []*mocrelay.ReqFilter{{}}
+				if rapid.IntRange(0, 2).Draw(t, lab+"cntmany") == 0 {
+					fs = []*mocrelay.ReqFilter{{}, {}, {}, {Limit: gen.Ptr(int64(1000))}}
+				}
+				msgs = append(msgs, &mocrelay.ClientCountMsg{SubscriptionID: id, ReqFilters: fs})
+				briefs = append(briefs, map[string]any{"COUNT": id, "filters": len(fs)})
 			}
 		}
 		cut := rapid.IntRange(0, n).Draw(t, "cut")
@@ -244,6 +257,43 @@ func TestC13Termination(t *testing.T) {
 		send := make(chan mocrelay.ServerMsg)
 		ret := make(chan error, 1)
 		go func() { ret <- c.h.ServeNostr(ctx, send, recv) }()
+
+		// companion session on the same handler: publishes events that match the main
+		// session's subscriptions while it runs and ends (shared routers fan them out),
+		// so that deliveries are in flight at the moment of the cut
+		companion := rapid.IntRange(0, 2).Draw(t, "companion") != 0
+		var compDone chan struct{}
+		compCtx, compCancel := context.WithCancel(context.Background())
+		defer compCancel()
+		if companion {
+			compDone = make(chan struct{})
+			crecv := make(chan mocrelay.ClientMsg)
+			csend := make(chan mocrelay.ServerMsg)
+			cret := make(chan error, 1)
+			go func() { cret <- c.h.ServeNostr(compCtx, csend, crecv) }()
+			go func() {
+				defer close(compDone)
+				i := 0
+				for {
+					i++
+					e := &mocrelay.Event{Pubkey: authors[0], Kind: 1, CreatedAt: now, Tags: []mocrelay.Tag{}, Content: fmt.Sprintf("companion-%d", i)}
+					gen.Seal(e)
+					select {
+					case crecv <- &mocrelay.ClientEventMsg{Event: e}:
+					case <-csend:
+					case <-cret:
+						return
+					case <-compCtx.Done():
+						select {
+						case <-cret:
+						case <-time.After(5 * time.Second):
+						}
+						return
+					}
+				}
+			}()
+			desc["companion_publisher"] = true
+		}
 
 		// reader
 		stopRead := make(chan struct{})
@@ -311,7 +361,22 @@ func TestC13Termination(t *testing.T) {
 			close(stopRead)
 			<-readerDone
 		}
-		cancel()
+		// after an inbound close the surrounding context stays alive: the session's
+		// goroutines must be gone without it being cancelled (it is cancelled by the
+		// deferred call at the end of the case)
+		if mode != "close-draining" {
+			cancel()
+		}
+		if companion {
+			// the main session's registry entries must be gone while the companion still runs
+			time.Sleep(2 * time.Millisecond)
+			compCancel()
+			select {
+			case <-compDone:
+			case <-time.After(6 * time.Second):
+				hx.Fail(t, ev.Failure{Property: "C13", Signature: "serve-does-not-return", Clause: "the companion session ends after cancel", Case: desc, Observed: "not returned"})
+			}
+		}
 		// goroutines back to baseline
 		deadline := time.Now().Add(5 * time.Second)
 		for {
